@@ -108,7 +108,16 @@ func gopfmt(path string, class, smart, mvgo bool) (err error) {
 	return writeFileWithBackup(path, target)
 }
 
+// writeFileWithBackup replaces the content of path by target. The new content
+// is written to a temporary file in the same directory, which gets the
+// permission bits of path and is then renamed over path: os.Rename replaces
+// an existing file atomically, so at any moment path holds either the complete
+// old content or the complete new content.
 func writeFileWithBackup(path string, target []byte) (err error) {
+	fi, err := os.Stat(path)
+	if err != nil {
+		return
+	}
 	dir, file := filepath.Split(path)
 	f, err := os.CreateTemp(dir, file)
 	if err != nil {
@@ -116,15 +125,19 @@ func writeFileWithBackup(path string, target []byte) (err error) {
 	}
 	tmpfile := f.Name()
 	_, err = f.Write(target)
+	if err == nil {
+		err = f.Chmod(fi.Mode().Perm())
+	}
 	f.Close()
 	if err != nil {
+		os.Remove(tmpfile)
 		return
 	}
-	err = os.Remove(path)
+	err = os.Rename(tmpfile, path)
 	if err != nil {
-		return
+		os.Remove(tmpfile)
 	}
-	return os.Rename(tmpfile, path)
+	return
 }
 
 type walker struct {
